@@ -742,7 +742,7 @@ func run(args []string) error {
 		if err := e.walGrid(r, filepath.Join(*out, "grid")); err != nil {
 			return err
 		}
-		if err := e.dbGrid(filepath.Join(*out, "grid"), *tier); err != nil {
+		if err := e.dbGrid(filepath.Join(*out, "grid"), *tier, *seed); err != nil {
 			return err
 		}
 		_ = os.RemoveAll(filepath.Join(*out, "grid"))
